@@ -64,7 +64,7 @@ pub fn base_script(idx: u64, variant: u64) -> Scenario {
             s.callers = vec![(ms(20), vec![Step::Do(Req::Raw { shape: 0 }), Step::Think(d / 2), Step::Do(Req::Raw { shape: 1 }), Step::Think(d * 2), Step::Do(Req::Raw { shape: 0 })])];
         }
         8 => {
-            s.world.art = Some(ArtStore { embedded: Some(((0..150u32).map(|x| (x % 251) as u8).collect(), Some("image/png".into()))), cover: None, limit: 64, readpicture_supported: true, embedded_ack: 0, cover_ack: 0, ack_after_partial_output: false, ack_from_offset: None });
+            s.world.art = Some(ArtStore { embedded: Some(((0..150u32).map(|x| (x % 251) as u8).collect(), Some("image/png".into()))), cover: None, limit: 64, readpicture_supported: true, embedded_ack: 0, cover_ack: 0, ack_after_partial_output: false, ack_from_offset: None, later_chunks: Vec::new() });
             s.callers = vec![(ms(20), vec![Step::Do(Req::AlbumArt { uri: "a b.mp3".into() })])];
         }
         9 => {
